@@ -1886,7 +1886,9 @@ def run(chk):
         "route lengths 1..7, 2-periodic), manager typestate at every exit, index-ownership typing of every getAxes "
         "result (6 call sites), Allgather geometry (uniform padded counts, unpack with the sender's true block "
         "shape, placement by the source partition) and scatter slice read symbolically from the arms, buffer sizing, "
-        "permutation typing of the block transposes. Decides the structural necessary conditions of C03; the "
+        "permutation typing of the block transposes, dependence reading of the direct-connection decision (two different "
+        "handlers with equal numbers of process directions are connected only if the result compares the dimension orders of "
+        "both layouts communicator by communicator). Decides the structural necessary conditions of C03; the "
         "communicator-matching heuristic of __init__ and element-level placement are not decided.")
     chk.assumptions += [
         "LayoutHandler.transpose satisfies its contract (decided by C01)",
@@ -1930,6 +1932,10 @@ def run(chk):
                file=U.LAYOUT, func=q)
     # getAxes itself: returns (position in gathered ordering of the scattered dimension, scattered axis)
     getaxes_definition(chk, mod)
+    # two different handlers with the same number of process directions: connected directly only if the shared communicators
+    # distribute the same dimensions in both layouts (dependence reading of the deciding method)
+    engine(chk, "A1-equal-handlers-same-dimension", mod.cls(CLS), "the method deciding direct connection of two layouts",
+           equal_handlers_same_dimension, chk, mod, file=U.LAYOUT, func=CLS)
     # the same matching in _compatibleLayout: communicators are matched as objects
     for q in ("LayoutSwapper._compatibleLayout", "LayoutSwapper.getAxes"):
         f_ = mod.func(q)
@@ -2302,3 +2308,889 @@ for c in handlerG.communicators:
                 "whose communicator the gathered handler lacks)", bad, file=U.LAYOUT, func="LayoutSwapper.getAxes")
     if not okga and not bad:
         o.msg = "getAxes could not be read completely: " + "; ".join(und)
+
+
+# ------------------------------------------------------------------ A1-equal-handlers-same-dimension
+# Two layouts of two DIFFERENT handlers with the SAME number of process directions are `directly connected` (and then moved by a
+# purely local copy: the swapper treats the pair as a transpose) only if every shared communicator distributes the same dimension
+# in both layouts.  The rule reads the method that decides direct connection (found by role) as a DEPENDENCE problem: the function
+# is followed forward, statement by statement, under the assumption (handlers differ, counts are equal); every value is abstracted
+# to the set of SOURCES it was computed from (communicators of handler 1/2, dimension order of layout 1/2, counts, ... - no value
+# is ever computed), tests the assumption decides prune a branch, the others fork the path and become control dependences of what
+# follows.  A way through the function that can return a true value must have the dimension orders of BOTH layouts, paired through
+# the communicators of both handlers, among the sources of (returned value + the tests it was reached under).
+class _Unfollowed(Exception):
+    """a construct the dependence reader does not model was met on a followed path"""
+
+
+class _DV:
+    """abstract value: `tags` = the sources it depends on (C1/C2 communicators of handler 1/2, D1/D2 dimension order of layout 1/2,
+    D? dimension order of a layout that was not identified, N number of process directions, P process counts/coordinates, H handler
+    identity, M / Mc = a comparison whose operands carry D1 and D2 / and also C1 and C2, `?...` = a source that was not followed);
+    `kind` = what the value IS when that is known (('name'|'hidx'|'handler'|'layout'|'dims'|'comms'|'comm'|'nprocs', k), ('count',),
+    ('self',), ...); `sym` = symbolic integer under the assumption; `const` = (value,) of a literal; `elts` = the parts of a
+    tuple/list display; `elem` = the element of an iterable; `tv` = truth value decided by the assumption"""
+    __slots__ = ("tags", "kind", "sym", "const", "elts", "elem", "tv", "extra")
+
+    def __init__(self, tags=(), kind=None, sym=None, const=None, elts=None, elem=None, tv=None, extra=None):
+        self.tags = frozenset(tags)
+        self.kind, self.sym, self.const, self.elts, self.elem, self.tv, self.extra = kind, sym, const, elts, elem, tv, extra
+
+    def plus(self, tags):
+        tags = frozenset(tags)
+        if tags <= self.tags:
+            return self
+        return _DV(self.tags | tags, self.kind, self.sym, self.const, self.elts, self.elem, self.tv, self.extra)
+
+
+def _dv_join(a, b, depth=3):
+    if a is None:
+        return b
+    if b is None or a is b:
+        return a
+    el = None
+    if depth > 0 and (a.elem is not None or b.elem is not None):
+        el = _dv_join(a.elem, b.elem, depth - 1)
+    elts = None
+    if depth > 0 and a.elts is not None and b.elts is not None and len(a.elts) == len(b.elts):
+        elts = [_dv_join(x, y, depth - 1) for x, y in zip(a.elts, b.elts)]
+    same_sym = a.sym is not None and b.sym is not None and a.sym == b.sym
+    same_kind = a.kind == b.kind and (a.extra is b.extra)
+    return _DV(a.tags | b.tags, a.kind if same_kind else None, a.sym if same_sym else None,
+               a.const if (a.const is not None and a.const == b.const) else None, elts, el, a.tv if a.tv == b.tv else None,
+               a.extra if same_kind else None)
+
+
+class _DState:
+    __slots__ = ("env", "ctrl", "shaky")
+
+    def __init__(self, env, ctrl=(), shaky=None):
+        self.env, self.ctrl, self.shaky = env, tuple(ctrl), shaky
+
+    def copy(self):
+        return _DState(dict(self.env), self.ctrl, self.shaky)
+
+    def ctrl_tags(self):
+        out = set()
+        for c in self.ctrl:
+            out |= c.tags
+        return out
+
+
+_DIMS_ATTRS = ("dims_order", "inv_dims_order")
+_PURE_BUILTINS = {"all", "any", "len", "enumerate", "zip", "sorted", "set", "frozenset", "list", "tuple", "dict", "range", "abs", "sum",
+                  "min", "max", "map", "filter", "bool", "int", "float", "str", "reversed", "iter", "next", "id", "isinstance", "type",
+                  "repr", "hash", "divmod", "round", "print", "slice"}
+_PURE_MODULES = {"np", "numpy", "operator", "itertools", "functools", "math", "collections"}
+_DATA_METHODS = {"index", "count", "Get_size", "Get_rank", "Get_dim", "Get_topo", "Get_coords", "Compare", "items", "keys", "values",
+                 "get", "copy", "issubset", "issuperset", "union", "intersection", "difference", "symmetric_difference", "isdisjoint",
+                 "tolist", "all", "any", "sum", "nonzero", "astype", "flatten", "ravel", "pop"}
+_MUTATORS = {"append", "add", "extend", "update", "insert", "remove", "discard", "pop", "setdefault", "sort", "reverse", "clear"}
+_SET_COMPARE = {"issubset", "issuperset", "isdisjoint"}
+
+
+class _DepReader:
+    """forward reading of one function in the dependence domain (see _DV)"""
+
+    def __init__(self, mod, cls, depth=0):
+        import sympy
+        self.mod, self.cls, self.depth = mod, cls, depth
+        self.N = sympy.Symbol("N", integer=True, nonnegative=True)
+        self.paths = 0
+
+    # ---- classes of the module the swapper derives from (a method may live in a base class or mixin)
+    def _mro(self):
+        out, todo = [], [self.cls]
+        while todo:
+            c = todo.pop(0)
+            if c in out or not self.mod.has(c):
+                continue
+            out.append(c)
+            todo += [src(b).split(".")[-1] for b in self.mod.cls(c).bases]
+        return out
+
+    def method(self, name):
+        for c in self._mro():
+            if self.mod.has(f"{c}.{name}"):
+                n = self.mod.get(f"{c}.{name}")
+                if isinstance(n, ast.FunctionDef):
+                    return n
+        return None
+
+    # ---- expressions
+    def unknown(self, what, *parts):
+        tags = {"?" + what}
+        for p in parts:
+            if p is not None:
+                tags |= p.tags
+        return _DV(tags)
+
+    def elem_of(self, v):
+        if v.elem is not None:
+            return v.elem
+        if v.elts:
+            e = None
+            for x in v.elts:
+                e = _dv_join(e, x)
+            return e
+        if v.kind and v.kind[0] == "comms":
+            return _DV({f"C{v.kind[1]}"}, kind=("comm", v.kind[1]))
+        return _DV(v.tags)
+
+    def ev(self, e, st):
+        m = getattr(self, "ev_" + type(e).__name__, None)
+        if m is None:
+            raise _Unfollowed(f"expression `{src(e)[:50]}` ({type(e).__name__}) is not modelled")
+        return m(e, st)
+
+    def ev_Constant(self, e, st):
+        import sympy
+        v = e.value
+        return _DV((), const=(v,), sym=sympy.Integer(v) if isinstance(v, int) and not isinstance(v, bool) else None,
+                   tv=bool(v) if isinstance(v, (bool, int, str, type(None))) else None)
+
+    def ev_Name(self, e, st):
+        if e.id in st.env:
+            return st.env[e.id]
+        if e.id == "self":
+            return _DV((), kind=("self",))
+        import builtins
+        if hasattr(builtins, e.id):
+            return _DV((), kind=("builtin", e.id))
+        if e.id in _PURE_MODULES:
+            return _DV((), kind=("module", e.id))
+        if self.mod.has(e.id) and isinstance(self.mod.get(e.id), ast.FunctionDef):
+            return _DV((), kind=("func", e.id))
+        if self.mod.has(e.id) and isinstance(self.mod.get(e.id), ast.ClassDef):
+            return _DV((), kind=("class", e.id))
+        return self.unknown(f"name `{e.id}`")
+
+    def ev_Attribute(self, e, st):
+        b = self.ev(e.value, st)
+        a = e.attr
+        k = b.kind
+        if a in _DIMS_ATTRS:
+            if k and k[0] in ("layout", "name"):
+                return _DV({f"D{k[1]}"}, kind=("dims", k[1]))
+            # ASSUMPTION (VIOLATED needs every dimension order read to belong to an identified layout): not the case here
+            return _DV(b.tags | {"D?"})
+        if k is None:
+            return _DV(b.tags, kind=("method", a), extra=b)
+        if k[0] == "self":
+            if a == "_handlers":
+                return _DV((), kind=("handlers_map",))
+            if a == "_managers":
+                return _DV((), kind=("managers",))
+            if a == "_layouts":
+                return _DV(())
+            f = self.method(a)
+            if f is not None:
+                if any(src(d) in ("property", "functools.cached_property", "cached_property") for d in f.decorator_list):
+                    return self.call_function(f, [b], {}, a)
+                return _DV((), kind=("selfmethod", a))
+            return self.unknown(f"attribute `self.{a}` (what it holds was not followed)")
+        if k[0] == "handler":
+            if a == "communicators":
+                return _DV({f"C{k[1]}"}, kind=("comms", k[1]))
+            if a == "nProcs":
+                return _DV({"P"}, kind=("nprocs", k[1]))
+            if a == "nDistributedDirections":
+                return _DV({"N"}, kind=("count",), sym=self.N)
+            if a == "mpiCoords":
+                return _DV({"P"})
+            if a == "getLayout":
+                return _DV((), kind=("getlayout",))
+            return self.unknown(f"`{src(e)[:40]}` (attribute of a handler that is not modelled)")
+        if k[0] == "layout":
+            if a == "name":
+                return _DV((), kind=("name", k[1]))
+            return self.unknown(f"`{src(e)[:40]}` (attribute of a layout other than its dimension order)")
+        if k[0] == "module":
+            return _DV((), kind=("purefunc", f"{k[1]}.{a}"))
+        if k[0] in ("class",):
+            f = self.mod.get(f"{k[1]}.{a}") if self.mod.has(f"{k[1]}.{a}") else None
+            if isinstance(f, ast.FunctionDef) and any(src(d) == "staticmethod" for d in f.decorator_list):
+                return _DV((), kind=("staticfunc", f"{k[1]}.{a}"))
+            return self.unknown(f"`{src(e)[:40]}`")
+        if k[0] in ("handlers_map", "managers"):
+            return _DV({"H"}, kind=("method", a), extra=b)
+        return _DV(b.tags, kind=("method", a), extra=b)
+
+    def ev_Subscript(self, e, st):
+        b = self.ev(e.value, st)
+        if isinstance(e.slice, ast.Slice):
+            parts = [self.ev(x, st) for x in (e.slice.lower, e.slice.upper, e.slice.step) if x is not None]
+            tags = set(b.tags)
+            for p in parts:
+                tags |= p.tags
+            return _DV(tags, kind=b.kind if b.kind and b.kind[0] in ("comms", "dims", "nprocs") else None, elem=b.elem)
+        i = self.ev(e.slice, st)
+        k = b.kind
+        if k and k[0] == "handlers_map":
+            if i.kind and i.kind[0] == "name":
+                return _DV({"H"}, kind=("hidx", i.kind[1]))
+            return self.unknown(f"`{src(e)[:40]}` (handler of a name that is not one of the two layouts)", i)
+        if k and k[0] == "managers":
+            if i.kind and i.kind[0] == "hidx":
+                return _DV({"H"}, kind=("handler", i.kind[1]))
+            return self.unknown(f"`{src(e)[:40]}` (a handler that is not the one of either layout)", i)
+        if k and k[0] == "comms":
+            return _DV(b.tags | i.tags, kind=("comm", k[1]))
+        if b.elts is not None and i.const is not None and isinstance(i.const[0], int) and -len(b.elts) <= i.const[0] < len(b.elts):
+            return b.elts[i.const[0]]
+        if b.elem is not None:
+            return b.elem.plus(b.tags | i.tags)
+        return _DV(b.tags | i.tags)
+
+    def _seq(self, e, st):
+        vals = [self.ev(x, st) for x in e.elts]
+        tags = set()
+        for v in vals:
+            tags |= v.tags
+        return _DV(tags, elts=vals)
+
+    ev_Tuple = ev_List = ev_Set = _seq
+
+    def ev_Starred(self, e, st):
+        return self.ev(e.value, st)
+
+    def ev_Dict(self, e, st):
+        tags = set()
+        el = None
+        for k_, v_ in zip(e.keys, e.values):
+            if k_ is not None:
+                tags |= self.ev(k_, st).tags
+            v = self.ev(v_, st)
+            tags |= v.tags
+            el = _dv_join(el, v)
+        return _DV(tags, elem=el)
+
+    def ev_JoinedStr(self, e, st):
+        tags = set()
+        for x in e.values:
+            tags |= self.ev(x, st).tags
+        return _DV(tags)
+
+    def ev_FormattedValue(self, e, st):
+        return _DV(self.ev(e.value, st).tags)
+
+    def ev_NamedExpr(self, e, st):
+        v = self.ev(e.value, st)
+        self.bind(e.target, v, st)
+        return v
+
+    def ev_Lambda(self, e, st):
+        sub = st.copy()
+        for a in e.args.args + e.args.kwonlyargs + ([e.args.vararg] if e.args.vararg else []) + ([e.args.kwarg] if e.args.kwarg else []):
+            sub.env[a.arg] = _DV(())
+        return _DV(self.ev(e.body, sub).tags, kind=("lambda",), extra=(e, dict(st.env)))
+
+    def ev_UnaryOp(self, e, st):
+        v = self.ev(e.operand, st)
+        if isinstance(e.op, ast.Not):
+            return _DV(v.tags, tv=None if v.tv is None else not v.tv)
+        if isinstance(e.op, ast.USub) and v.sym is not None:
+            return _DV(v.tags, sym=-v.sym)
+        return _DV(v.tags)
+
+    def ev_BinOp(self, e, st):
+        a, b = self.ev(e.left, st), self.ev(e.right, st)
+        sym = None
+        if a.sym is not None and b.sym is not None:
+            if isinstance(e.op, ast.Add):
+                sym = a.sym + b.sym
+            elif isinstance(e.op, ast.Sub):
+                sym = a.sym - b.sym
+            elif isinstance(e.op, ast.Mult):
+                sym = a.sym * b.sym
+        return _DV(a.tags | b.tags, sym=sym)
+
+    def ev_BoolOp(self, e, st):
+        vals = [self.ev(x, st) for x in e.values]
+        tags = set()
+        for v in vals:
+            tags |= v.tags
+        tvs = [v.tv for v in vals]
+        if isinstance(e.op, ast.And):
+            tv = False if any(t is False for t in tvs) else (True if all(t is True for t in tvs) else None)
+        else:
+            tv = True if any(t is True for t in tvs) else (False if all(t is False for t in tvs) else None)
+        return _DV(tags, tv=tv)
+
+    def ev_IfExp(self, e, st):
+        t = self.ev(e.test, st)
+        if t.tv is True:
+            return self.ev(e.body, st)
+        if t.tv is False:
+            return self.ev(e.orelse, st)
+        return _dv_join(self.ev(e.body, st), self.ev(e.orelse, st)).plus(t.tags)
+
+    _IDENT = ("name", "hidx", "handler", "layout")
+
+    def _cmp(self, op, a, b):
+        """truth value of one comparison under the assumption (the two handlers are different objects with different indices, so the
+        two names and the two layouts differ too; the two counts are the same number N), None when it does not decide it"""
+        import sympy
+        if a.kind and b.kind and a.kind[0] == b.kind[0] and a.kind[0] in self._IDENT and isinstance(op, (ast.Eq, ast.NotEq, ast.Is, ast.IsNot)):
+            same = a.kind[1] == b.kind[1]
+            return same if isinstance(op, (ast.Eq, ast.Is)) else not same
+        if a.sym is not None and b.sym is not None:
+            rel = {ast.Eq: sympy.Eq, ast.NotEq: sympy.Ne, ast.Lt: sympy.Lt, ast.LtE: sympy.Le, ast.Gt: sympy.Gt, ast.GtE: sympy.Ge}.get(type(op))
+            if rel is not None:
+                try:
+                    r = sympy.simplify(rel(a.sym, b.sym))
+                except Exception:
+                    return None
+                if r is sympy.true:
+                    return True
+                if r is sympy.false:
+                    return False
+            return None
+        if a.const is not None and b.const is not None and isinstance(op, (ast.Eq, ast.NotEq)):
+            return (a.const[0] == b.const[0]) if isinstance(op, ast.Eq) else (a.const[0] != b.const[0])
+        return None
+
+    @staticmethod
+    def _meet(tags):
+        tags = set(tags)
+        if {"D1", "D2"} <= tags:
+            tags.add("M")
+            if {"C1", "C2"} <= tags:
+                tags.add("Mc")
+        return tags
+
+    def ev_Compare(self, e, st):
+        vals = [self.ev(x, st) for x in [e.left] + e.comparators]
+        tags = set()
+        for v in vals:
+            tags |= v.tags
+        tvs = [self._cmp(op, a, b) for op, a, b in zip(e.ops, vals, vals[1:])]
+        tv = False if any(t is False for t in tvs) else (True if all(t is True for t in tvs) else None)
+        return _DV(self._meet(tags), tv=tv)
+
+    def _comp(self, e, st, elts):
+        sub = st.copy()
+        tags = set()
+        for g in e.generators:
+            if g.is_async:
+                raise _Unfollowed("async comprehension")
+            it = self.ev(g.iter, sub)
+            tags |= it.tags
+            self.bind(g.target, self.elem_of(it), sub)
+            for c in g.ifs:
+                tags |= self.ev(c, sub).tags
+        vals = [self.ev(x, sub) for x in elts]
+        for v in vals:
+            tags |= v.tags
+        if len(vals) == 1:
+            el = vals[0]
+        else:
+            el = _DV(set().union(*[v.tags for v in vals]), elts=vals)
+        return _DV(tags, elem=el)
+
+    def ev_ListComp(self, e, st):
+        return self._comp(e, st, [e.elt])
+
+    ev_SetComp = ev_GeneratorExp = ev_ListComp
+
+    def ev_DictComp(self, e, st):
+        return self._comp(e, st, [e.key, e.value])
+
+    def ev_Call(self, e, st):
+        f = self.ev(e.func, st)
+        if any(k.arg is None for k in e.keywords):
+            return self.unknown(f"`{src(e)[:40]}` (** arguments)")
+        args = [self.ev(a, st) for a in e.args]
+        kws = {k.arg: self.ev(k.value, st) for k in e.keywords}
+        return self.apply(f, args, kws, e, st)
+
+    def apply(self, f, args, kws, e, st):
+        """the value of calling the abstract callable `f` (e = the call expression it is written in)"""
+        import sympy
+        allv = args + list(kws.values())
+        tags = set()
+        for v in allv:
+            tags |= v.tags
+        k = f.kind
+        if k and k[0] == "builtin":
+            n = k[1]
+            if n not in _PURE_BUILTINS:
+                return self.unknown(f"call of `{n}`", *allv)
+            if n == "len" and len(args) == 1 and args[0].kind and args[0].kind[0] in ("comms", "nprocs") and not kws:
+                return _DV({"N"}, kind=("count",), sym=self.N)
+            if n in ("abs", "max", "min") and args and all(a.sym is not None for a in args) and not kws and not any(isinstance(a, ast.Starred) for a in e.args):
+                fn_ = {"abs": sympy.Abs, "max": sympy.Max, "min": sympy.Min}[n]
+                if n != "abs" or len(args) == 1:
+                    return _DV(tags, sym=fn_(*[a.sym for a in args]))
+            if n == "enumerate" and args:
+                el = self.elem_of(args[0])
+                return _DV(tags, elem=_DV(tags | el.tags, elts=[_DV(args[0].tags), el]))
+            if n == "zip":
+                els = [self.elem_of(a) for a in args]
+                return _DV(tags, elem=_DV(tags, elts=els))
+            if n in ("list", "tuple", "sorted", "set", "frozenset", "reversed", "iter") and args:
+                a0 = args[0]
+                keep = a0.kind if n in ("list", "tuple") and a0.kind and a0.kind[0] in ("comms", "dims", "nprocs") else None
+                return _DV(tags, kind=keep, elem=self.elem_of(a0).plus(tags - a0.tags), elts=a0.elts if n in ("list", "tuple") else None)
+            if n == "next" and args:
+                return self.elem_of(args[0]).plus(tags)
+            if n == "map" and len(args) >= 2 and args[0].kind and args[0].kind[0] in ("lambda", "localfunc", "func", "selfmethod", "staticfunc"):
+                r = self.apply(args[0], [self.elem_of(a) for a in args[1:]], {}, e, st)
+                return _DV(tags | r.tags, elem=r.plus(tags))
+            if n in ("map", "filter") and len(args) >= 2:
+                return _DV(tags, elem=_DV(tags))
+            if n == "dict" and len(args) == 1 and args[0].elem is not None and args[0].elem.elts and len(args[0].elem.elts) == 2:
+                return _DV(tags, elem=args[0].elem.elts[1].plus(tags))
+            return _DV(tags)
+        if k and k[0] == "purefunc":
+            if k[1].split(".")[-1] in ("array_equal", "array_equiv", "equal", "not_equal", "isin", "in1d", "setdiff1d", "setxor1d", "eq", "ne", "allclose"):
+                tags = self._meet(tags)
+            return _DV(tags)
+        if k and k[0] == "lambda":
+            node, closure = f.extra
+            la = node.args
+            if la.vararg or la.kwarg or la.kwonlyargs or la.posonlyargs or la.defaults or kws or len(args) != len(la.args) \
+                    or any(isinstance(a, ast.Starred) for a in e.args):
+                return _DV(tags | f.tags)
+            sub = _DState(dict(closure))
+            for a_, v_ in zip(la.args, args):
+                sub.env[a_.arg] = v_
+            return self.ev(node.body, sub)
+        if k and k[0] == "localfunc":
+            fdef, closure = f.extra
+            if any(isinstance(a, ast.Starred) for a in e.args):
+                return self.unknown(f"call of `{fdef.name}`", *allv)
+            return self.call_function(fdef, args, kws, fdef.name, closure=closure)
+        if k and k[0] == "getlayout":
+            if len(allv) == 1 and allv[0].kind and allv[0].kind[0] == "name":
+                return _DV((), kind=("layout", allv[0].kind[1]))
+            return self.unknown(f"`{src(e)[:40]}` (a layout that is not one of the two compared)", *allv)
+        if k and k[0] == "selfmethod":
+            fdef = self.method(k[1])
+            static = any(src(d) == "staticmethod" for d in fdef.decorator_list)
+            if any(src(d) == "classmethod" for d in fdef.decorator_list) or any(isinstance(a, ast.Starred) for a in e.args):
+                return self.unknown(f"call of `self.{k[1]}`", *allv)
+            return self.call_function(fdef, ([] if static else [_DV((), kind=("self",))]) + args, kws, f"self.{k[1]}")
+        if k and k[0] in ("func", "staticfunc"):
+            if any(isinstance(a, ast.Starred) for a in e.args):
+                return self.unknown(f"call of `{k[1]}`", *allv)
+            return self.call_function(self.mod.func(k[1]), args, kws, k[1])
+        if k and k[0] == "method":
+            base = f.extra
+            btags = set(base.tags) if base is not None else set()
+            name = k[1]
+            bk = base.kind if base is not None else None
+            if bk and bk[0] == "handlers_map" and name == "get" and args and args[0].kind and args[0].kind[0] == "name":
+                return _DV({"H"}, kind=("hidx", args[0].kind[1]))
+            if name in _DATA_METHODS or name in _MUTATORS:
+                out = tags | btags
+                if name in _SET_COMPARE:
+                    out = self._meet(out)
+                if name == "index" and bk and bk[0] == "comms":
+                    return _DV(out)
+                return _DV(out, elem=base.elem if name in ("copy", "union", "intersection", "difference") and base is not None else None)
+            return self.unknown(f"call of method `.{name}` on `{src(e.func.value)[:30]}`", base, *allv)
+        if k and k[0] == "class":
+            return self.unknown(f"construction of `{k[1]}`", *allv)
+        return self.unknown(f"call `{src(e)[:40]}`", f, *allv)
+
+    def call_function(self, fdef, args, kws, name, closure=None):
+        """the value a function of the module returns for abstract arguments: its body is read the same way, the values of its
+        returns (with the tests they were reached under) are joined"""
+        if self.depth >= 3:
+            return self.unknown(f"call of `{name}` (nesting too deep)", *args, *kws.values())
+        a = fdef.args
+        if a.vararg or a.kwarg or a.posonlyargs:
+            return self.unknown(f"call of `{name}` (variadic signature)", *args, *kws.values())
+        params = [x.arg for x in a.args]
+        if len(args) > len(params):
+            return self.unknown(f"call of `{name}` (arguments do not match)", *args, *kws.values())
+        env = dict(closure or {})
+        for p in params:
+            env.pop(p, None)
+        env.update(zip(params, args))
+        sub = _DepReader(self.mod, self.cls, self.depth + 1)
+        try:
+            for p, d in zip(params[len(params) - len(a.defaults):], a.defaults):
+                if p not in env and p not in kws:
+                    env[p] = sub.ev(d, _DState({}))
+            for kw, d in zip(a.kwonlyargs, a.kw_defaults):
+                if kw.arg not in kws and d is not None:
+                    env[kw.arg] = sub.ev(d, _DState({}))
+            for k_, v_ in kws.items():
+                if k_ in env or k_ not in params + [x.arg for x in a.kwonlyargs]:
+                    return self.unknown(f"call of `{name}` (arguments do not match)", *args, *kws.values())
+                env[k_] = v_
+            if any(p not in env for p in params):
+                return self.unknown(f"call of `{name}` (arguments do not match)", *args, *kws.values())
+            outs = sub.block(fdef.body, _DState(env))
+        except _Unfollowed as ex:
+            return self.unknown(f"call of `{name}` (not followed: {ex})", *args, *kws.values())
+        res = None
+        for status, st2, pay in outs:
+            if status == "ret":
+                res = _dv_join(res, pay[1].plus(st2.ctrl_tags())) if res is not None else pay[1].plus(st2.ctrl_tags())
+            elif status == "fall":
+                v = _DV(st2.ctrl_tags(), const=(None,), tv=False)
+                res = _dv_join(res, v) if res is not None else v
+        return res if res is not None else _DV((), const=(None,), tv=False)
+
+    # ---- statements
+    def bind(self, target, v, st):
+        if isinstance(target, ast.Name):
+            st.env[target.id] = v
+        elif isinstance(target, (ast.Tuple, ast.List)):
+            if v.elts is not None and len(v.elts) == len(target.elts) and not any(isinstance(t, ast.Starred) for t in target.elts):
+                for t, x in zip(target.elts, v.elts):
+                    self.bind(t, x, st)
+            else:
+                el = self.elem_of(v)
+                for t in target.elts:
+                    self.bind(t.value if isinstance(t, ast.Starred) else t, _DV(el.tags | v.tags), st)
+        elif isinstance(target, ast.Starred):
+            self.bind(target.value, v, st)
+        elif isinstance(target, (ast.Subscript, ast.Attribute)):
+            # weak update of the container a local name holds: it now also depends on the stored value and on the position
+            root = target
+            while isinstance(root, (ast.Subscript, ast.Attribute)):
+                root = root.value
+            extra = set(v.tags)
+            if isinstance(target, ast.Subscript) and not isinstance(target.slice, ast.Slice):
+                extra |= self.ev(target.slice, st).tags
+            if isinstance(root, ast.Name) and root.id in st.env:
+                old = st.env[root.id]
+                st.env[root.id] = _DV(old.tags | extra, kind=old.kind, elem=_dv_join(old.elem, _DV(v.tags)) if old.elem is not None else None)
+            elif isinstance(root, ast.Name) and root.id == "self":
+                raise _Unfollowed(f"the function stores into `{src(target)[:40]}`")
+        else:
+            raise _Unfollowed(f"assignment target `{src(target)[:40]}`")
+
+    def block(self, stmts, st):
+        live, out = [st], []
+        for s in stmts:
+            nxt = []
+            for cur in live:
+                for status, st2, pay in self.stmt(s, cur):
+                    if status == "fall":
+                        nxt.append(st2)
+                    else:
+                        out.append((status, st2, pay))
+            live = nxt
+            if len(live) + len(out) > 64:
+                raise _Unfollowed("more than 64 ways through the function")
+            if not live:
+                break
+        return out + [("fall", x, None) for x in live]
+
+    def stmt(self, s, st):
+        st = st.copy()
+        ct = st.ctrl_tags()
+        if isinstance(s, ast.Expr):
+            if isinstance(s.value, ast.Constant):
+                return [("fall", st, None)]
+            c = s.value
+            if isinstance(c, ast.Call) and isinstance(c.func, ast.Attribute) and c.func.attr in _MUTATORS and isinstance(c.func.value, ast.Name) \
+                    and c.func.value.id in st.env:
+                tags = set(ct)
+                vals = [self.ev(a, st) for a in c.args] + [self.ev(k.value, st) for k in c.keywords]
+                for v in vals:
+                    tags |= v.tags
+                old = st.env[c.func.value.id]
+                el = old.elem
+                if c.func.attr in ("append", "add") and len(vals) == 1:
+                    el = _dv_join(el, vals[0].plus(ct)) if el is not None else vals[0].plus(ct)
+                elif c.func.attr in ("extend", "update") and len(vals) == 1:
+                    el = _dv_join(el, self.elem_of(vals[0]).plus(ct)) if el is not None else self.elem_of(vals[0]).plus(ct)
+                elif el is not None:
+                    el = el.plus(tags)
+                st.env[c.func.value.id] = _DV(old.tags | tags, elem=el)
+                return [("fall", st, None)]
+            v = self.ev(c, st)
+            unk = {t for t in v.tags if t.startswith("?")}
+            if unk:
+                # a call that was not followed may change what its arguments hold
+                for n in ast.walk(c):
+                    if isinstance(n, ast.Name) and n.id in st.env:
+                        st.env[n.id] = st.env[n.id].plus(unk)
+            return [("fall", st, None)]
+        if isinstance(s, ast.Assign):
+            v = self.ev(s.value, st).plus(ct)
+            for t in s.targets:
+                self.bind(t, v, st)
+            return [("fall", st, None)]
+        if isinstance(s, ast.AnnAssign):
+            if s.value is not None:
+                self.bind(s.target, self.ev(s.value, st).plus(ct), st)
+            return [("fall", st, None)]
+        if isinstance(s, ast.AugAssign):
+            v = self.ev(s.value, st).plus(ct)
+            if isinstance(s.target, ast.Name):
+                old = st.env.get(s.target.id)
+                st.env[s.target.id] = _DV((old.tags if old is not None else frozenset()) | v.tags, elem=_dv_join(old.elem, v.elem) if old is not None else v.elem)
+            else:
+                self.bind(s.target, v, st)
+            return [("fall", st, None)]
+        if isinstance(s, ast.If):
+            t = self.ev(s.test, st)
+            if t.tv is True:
+                return self.block(s.body, st)
+            if t.tv is False:
+                return self.block(s.orelse, st)
+            out = []
+            for body in (s.body, s.orelse):
+                st2 = st.copy()
+                st2.ctrl = st.ctrl + (t,)
+                if t.tags & {"N", "H"} and st2.shaky is None:
+                    # ASSUMPTION of a VIOLATED verdict downstream: the way is feasible for two different handlers with equal counts.
+                    # A test that reads the counts / the handlers' identity and is not decided by the assumption leaves that open
+                    st2.shaky = f"`{src(s.test)[:60]}` reads the handlers' identity or counts but is not decided by the assumption"
+                out += self.block(body, st2)
+            return out
+        if isinstance(s, ast.For):
+            return self.do_for(s, st)
+        if isinstance(s, ast.Return):
+            return self.do_return(s, s.value, st)
+        if isinstance(s, ast.Raise):
+            return [("raise", st, None)]
+        if isinstance(s, ast.Assert):
+            t = self.ev(s.test, st)
+            if t.tv is False:
+                return [("raise", st, None)]
+            if t.tv is None:
+                st.ctrl = st.ctrl + (t,)
+            return [("fall", st, None)]
+        if isinstance(s, (ast.Pass, ast.Delete)):
+            return [("fall", st, None)]
+        if isinstance(s, ast.Break):
+            return [("brk", st, None)]
+        if isinstance(s, ast.Continue):
+            return [("cont", st, None)]
+        if isinstance(s, (ast.Import, ast.ImportFrom)):
+            for al in s.names:
+                n = (al.asname or al.name).split(".")[0]
+                st.env[n] = _DV((), kind=("module", n)) if n in _PURE_MODULES and isinstance(s, ast.Import) else self.unknown(f"imported name `{n}`")
+            return [("fall", st, None)]
+        if isinstance(s, ast.FunctionDef) and not s.decorator_list:
+            # a local function: read at its calls, in the environment it closes over (the names bound so far)
+            if any(isinstance(x, (ast.Nonlocal, ast.Global, ast.Yield, ast.YieldFrom)) for x in ast.walk(s)):
+                raise _Unfollowed(f"the local function `{s.name}` rebinds outer names or is a generator")
+            st.env[s.name] = _DV((), kind=("localfunc",), extra=(s, st.env))
+            return [("fall", st, None)]
+        raise _Unfollowed(f"a `{type(s).__name__}` statement (line {getattr(s, 'lineno', '?')}) is not modelled")
+
+    def do_return(self, s, value, st):
+        """`return A or B` is true as soon as A is: each operand is a way to return a true value of its own"""
+        if value is None:
+            return [("ret", st, (s, _DV((), const=(None,), tv=False), None))]
+        if isinstance(value, ast.BoolOp) and isinstance(value.op, ast.Or):
+            out, cur = [], st
+            for x in value.values:
+                v = self.ev(x, cur)
+                out.append(("ret", cur, (s, v, x)))
+                if v.tv is True:
+                    break
+                nxt = cur.copy()
+                if v.tv is None:
+                    nxt.ctrl = cur.ctrl + (_DV(v.tags),)
+                cur = nxt
+            return out
+        if isinstance(value, ast.IfExp):
+            t = self.ev(value.test, st)
+            if t.tv is True:
+                return self.do_return(s, value.body, st)
+            if t.tv is False:
+                return self.do_return(s, value.orelse, st)
+            out = []
+            for x in (value.body, value.orelse):
+                st2 = st.copy()
+                st2.ctrl = st.ctrl + (t,)
+                if t.tags & {"N", "H"} and st2.shaky is None:
+                    st2.shaky = f"`{src(value.test)[:60]}` reads the handlers' identity or counts but is not decided by the assumption"
+                out += self.do_return(s, x, st2)
+            return out
+        return [("ret", st, (s, self.ev(value, st), value))]
+
+    def do_for(self, s, st):
+        it = self.ev(s.iter, st)
+        el = self.elem_of(it)
+        entry = st.ctrl
+        cur = st.copy()
+        rets, exit_tags, shaky = [], set(), st.shaky
+        merged = cur
+        for _ in range(4):
+            body_st = cur.copy()
+            body_st.ctrl = entry + (_DV(it.tags),)
+            self.bind(s.target, el, body_st)
+            outs = self.block(s.body, body_st)
+            merged, rets, exit_tags = cur.copy(), [], set()
+            for status, st2, pay in outs:
+                beyond = set()
+                for c in st2.ctrl[len(entry):]:
+                    beyond |= c.tags
+                shaky = shaky or st2.shaky
+                if status == "ret":
+                    rets.append((status, st2, pay))
+                    exit_tags |= beyond
+                elif status == "raise":
+                    exit_tags |= beyond
+                else:
+                    if status == "brk":
+                        exit_tags |= beyond
+                    for n, v in st2.env.items():
+                        merged.env[n] = _dv_join(merged.env.get(n), v)
+            stable = all(n in cur.env and merged.env[n].tags == cur.env[n].tags for n in merged.env)
+            cur = merged
+            if stable:
+                break
+        after = merged.copy()
+        after.ctrl = entry + ((_DV(exit_tags | it.tags),) if exit_tags else ())
+        after.shaky = shaky
+        return rets + (self.block(s.orelse, after) if s.orelse else [("fall", after, None)])
+
+
+def _connection_decider(mod):
+    """(function, its call sites in the class) - the method of the swapper whose result decides, in the constructor's loop over pairs
+    of layout names, whether the pair is recorded as directly connected.  Today `_compatibleLayout`; otherwise the only method of the
+    class (or a base class) that the constructor calls on two names inside a test and that reads handlers' communicators and returns a value"""
+    rd = _DepReader(mod, CLS)
+    calls = []
+    for c in rd._mro():
+        for m in mod.cls(c).body:
+            if isinstance(m, ast.FunctionDef):
+                for x in ast.walk(m):
+                    if isinstance(x, ast.Call) and isinstance(x.func, ast.Attribute) and isinstance(x.func.value, ast.Name) \
+                            and x.func.value.id == "self" and len(x.args) + len(x.keywords) == 2:
+                        calls.append((m.name, x))
+    f = rd.method("_compatibleLayout")
+    if f is None:
+        cands = []
+        def in_test(x):
+            st_ = enclosing(x)
+            return isinstance(st_, (ast.If, ast.While, ast.Assert)) and any(n is x for n in ast.walk(st_.test))
+        for name in dict.fromkeys(x.func.attr for caller, x in calls if caller == "__init__" and in_test(x)):
+            g = rd.method(name)
+            if g is not None and any(isinstance(n, ast.Attribute) and n.attr == "communicators" for n in ast.walk(g)) \
+                    and any(isinstance(n, ast.Return) and n.value is not None for n in ast.walk(g)) \
+                    and len([a for a in g.args.args if a.arg != "self"]) == 2:
+                cands.append(g)
+        if len(cands) != 1:
+            return None, []
+        f = cands[0]
+    return f, [x for _, x in calls if x.func.attr == f.name]
+
+
+def _used_as_the_decision(call):
+    """the call's value alone (possibly negated) is the test of an `if` that is only inside loops: nothing else (no second condition
+    of the caller, no enclosing test) takes part in deciding whether the pair is connected"""
+    p = parent(call)
+    if isinstance(p, ast.UnaryOp) and isinstance(p.op, ast.Not):
+        call, p = p, parent(p)
+    if not (isinstance(p, ast.If) and p.test is call):
+        return False
+    return all(kind == "for" for _, _, kind in guards_of(p))
+
+
+_TAG_TEXT = {"C1": "the communicators of the first handler", "C2": "the communicators of the second handler",
+             "D1": "the dimension order of the first layout", "D2": "the dimension order of the second layout",
+             "N": "the numbers of process directions", "P": "the process counts", "H": "the handlers' identity"}
+
+
+def equal_handlers_same_dimension(chk, mod):
+    rule = "A1-equal-handlers-same-dimension"
+    rel = mod.rel
+    fn, sites = _connection_decider(mod)
+    called = bool(sites)
+    direct = called and all(_used_as_the_decision(x) for x in sites)
+    if fn is None:
+        chk.ob(rule, mod.cls(CLS), "the method deciding direct connection of two layouts", None,
+               "cannot decide: no `_compatibleLayout`, and no single method of the swapper that the constructor calls on two layout names in a "
+               "test and that reads the handlers' communicators", file=rel, func=CLS)
+        return
+    q = getattr(fn, "_qual", f"{CLS}.{fn.name}")
+    chk.functions.add(f"{rel}:{q}")
+    params = [a.arg for a in fn.args.args if a.arg != "self"]
+    if len(params) != 2 or fn.args.vararg or fn.args.kwarg or any(src(d) == "staticmethod" for d in fn.decorator_list):
+        chk.ob(rule, fn, f"{q}({', '.join(params)})", None, "cannot decide: the function does not take the two layouts as its two parameters",
+               file=rel, func=q)
+        return
+    rd = _DepReader(mod, CLS)
+    env = {params[0]: _DV((), kind=("name", 1)), params[1]: _DV((), kind=("name", 2)), "self": _DV((), kind=("self",))}
+    try:
+        outs = rd.block(fn.body, _DState(env))
+    except _Unfollowed as ex:
+        chk.ob(rule, fn, f"{q}: ways that return a true value for two different handlers with equal numbers of process directions", None,
+               f"cannot decide: the function could not be followed under the assumption (different handlers, equal counts): {ex}", file=rel, func=q)
+        return
+    per_site = {}
+    order = []
+    for status, st, pay in outs:
+        if status != "ret":
+            continue
+        node, val, expr = pay
+        if val.tv is False or (val.const is not None and not val.const[0]):
+            continue          # this way returns a false value: the pair is not declared connected
+        T = set(val.tags) | st.ctrl_tags()
+        unk = sorted(t[1:] for t in T if t.startswith("?"))
+        reads = [_TAG_TEXT[t] for t in ("C1", "C2", "D1", "D2", "N", "P") if t in T]
+        quoted = "return " + (src(expr) if expr is not None else "None")
+        under = "; ".join(dict.fromkeys(", ".join(_TAG_TEXT.get(x, x) for x in sorted(c.tags) if not x.startswith("?") and x not in ("M", "Mc")) or "nothing tracked"
+                                        for c in st.ctrl))
+        if "Mc" in T:
+            ok, why = True, ("the result depends on a comparison of the dimension orders of BOTH layouts, paired through the communicators of both "
+                             "handlers: two equally distributed layouts are connected directly only if the shared communicators distribute the "
+                             "same dimensions")
+        elif unk or st.shaky or "D?" in T:
+            ok = None
+            why = "cannot decide: " + ("; ".join(unk[:4]) if unk else (st.shaky or "a dimension order is read from a layout that was not identified as one of the two")) + \
+                  " - so whether the dimension orders of both layouts enter the result was not established"
+        elif "D1" in T and "D2" in T:
+            ok = None
+            why = ("cannot decide: the dimension orders of both layouts are read, but they were not found compared with each other communicator by "
+                   "communicator (no comparison whose operands carry both orders and both handlers' communicators)")
+        else:
+            # ASSUMPTIONS under which this diagnosis is true of the code (each one checked above, else the verdict is UNDECIDED):
+            #  (1) `fn` is the function whose true result makes the swapper record the pair as directly connected (found by role), and
+            #      its result ALONE is that decision: every call of it in the class is the whole test (possibly negated) of an `if`
+            #      that only loops enclose (`direct`) - a caller that combines it with a second condition may compare the dimension
+            #      orders itself (responsibility moved to the caller): then the verdict is UNDECIDED;
+            #  (2) this way through it is taken for two DIFFERENT handlers with EQUAL numbers of process directions: every test on the
+            #      way that reads the handlers' identity or the counts was decided by that assumption (`st.shaky` is None); the other
+            #      tests were followed both ways;
+            #  (3) the returned value can be true (not a false literal, not decided false by the assumption);
+            #  (4) everything the returned value and the tests on the way were computed from was followed to its sources (no `?` tag: no
+            #      unmodelled call, attribute, global or statement) and every dimension order read belongs to an identified layout (no D?);
+            #  (5) with (4): the sources contain the dimension order of at most one of the two layouts, so the result cannot tell whether
+            #      a shared communicator distributes the same dimension in both.
+            ok = False if direct else None
+            which = [k_ for k_ in ("D1", "D2") if k_ in T]
+            why = (f"for two different handlers with the same number of process directions the function returns `{src(expr)[:160] if expr is not None else None}`"
+                   + (f" (reached past tests that read only: {under})" if st.ctrl else "") + f": this result is computed only from {', '.join(reads) or 'constants'} - "
+                   + ("it reads the dimension order of NEITHER layout" if not which else f"it reads only {_TAG_TEXT[which[0]]}, never the other layout's")
+                   + ". Two layouts whose handlers share their communicators are declared directly connected even when a shared communicator distributes "
+                     "DIFFERENT dimensions in the two layouts; the swapper then takes the pair for a mere transpose and moves it with a purely local copy "
+                     "(ValueError on unequal blocks, or silently wrong blocks): the global field changes. Required: for every shared communicator of "
+                     "size > 1, the dimension it distributes (dims_order at its position) is the same in both layouts")
+            if not called:
+                why = "cannot decide (no call of this function from the class was found, so its role is not established): " + why
+            elif not direct:
+                why = ("cannot decide (a caller does not use the result alone as the test deciding the connection - it is combined with other "
+                       "conditions that were not followed and may compare the dimension orders there): ") + why
+        key = (id(node), quoted)
+        if key not in per_site:
+            per_site[key] = [node, quoted, ok, why]
+            order.append(key)
+        else:
+            rank = {False: 0, None: 1, True: 2}
+            if rank[ok] < rank[per_site[key][2]]:
+                per_site[key][2], per_site[key][3] = ok, why
+    if not order:
+        any_ret = any(status == "ret" for status, _, _ in outs)
+        chk.ob(rule, fn, f"{q}: ways that return a true value for two different handlers with equal numbers of process directions",
+               True if any_ret else None,
+               "no way through the function returns a true value under the assumption: equally distributed layouts of different handlers are never "
+               "connected directly (nothing is moved by a local copy)" if any_ret else
+               "cannot decide: no return statement is reached under the assumption (different handlers, equal counts)", file=rel, func=q)
+        return
+    for key in order:
+        node, quoted, ok, why = per_site[key]
+        chk.ob(rule, node, quoted[:200], ok, why, file=rel, func=q)
